@@ -131,6 +131,13 @@ class Interp:
     def keyarg(self, sel, item=None, member=None):
         """returns (argument for ctypes, key bytes or None). sel chooses literal / NULL / aliasing forms"""
         m = sel % 16
+        if item is not None and item.key is not None and item.key_const and m in (2, 6, 10):
+            # an item that still carries a constant key from an earlier life is re-added / used as replacement under that very
+            # name (passed as the key pointer itself or as an equal string elsewhere in memory)
+            self.feat.add("alias_key")
+            if m == 2:
+                return item.key, item.key
+            return self.lib.shim_key(item.ptr), item.key
         if m == 15:
             return None, None
         if m == 14 and item is not None and item.key is not None:
